@@ -120,7 +120,7 @@ func TestC08Handles(t *testing.T) {
 		}
 		base := g.Actions(judge)
 		acts := map[string]func(*rapid.T){}
-		for _, k := range []string{"create", "create2", "mkdir", "symlink", "write", "remove", "remove2", "rmdir", "rename", "rename2",
+		for _, k := range []string{"create", "create2", "mkdir", "symlink", "write", "remove", "remove2", "rmdir", "rename", "rename2", "movedir",
 			"lookup", "readdirplus", "misc", "restart", "setattr"} {
 			acts[k] = base[k]
 		}
